@@ -6,7 +6,7 @@ From Coq Require String.
 Import String.StringSyntax.
 Import ListNotations.
 From OV Require Import Base.Bytes Base.Utf8 Base.Cases Base.Tree Model.Csv Model.Fixed Model.Delim
-  Proofs.DelimUtf8 Proofs.DelimCsv Proofs.DelimFixed Proofs.DelimReaders Proofs.DelimLine Proofs.DelimCsv2 Proofs.DelimJump Proofs.DelimValid.
+  Proofs.DelimUtf8 Proofs.DelimCsv Proofs.DelimFixed Proofs.DelimReaders Proofs.DelimLine Proofs.DelimCsv2 Proofs.DelimJump Proofs.DelimValid Proofs.DelimFixed2.
 Local Open Scope string_scope.
 Local Open Scope list_scope.
 
@@ -263,6 +263,25 @@ Theorem fixed2_no_poison : forall re_match input ops,
   Forall (fun o => o <> Some OPoison /\ forall k, o <> Some (OPanic k))
          (rr_run re_match (f2_init input) ops).
 Proof. exact fixed2_no_poison_proof. Qed.
+
+(* fixedlength2 column fidelity.  For every input, every regexp behaviour and every sequence of
+   RecReader calls from a fresh reader: the non-empty lines ByteReadLine returns form a stream
+   (streamF); the buffer holds exactly the lines read and not yet consumed (viewF); every delivered
+   envelope node is node_specF of a segment of the stream - per declared column, in declaration
+   order, the rune slice [start_pos, start_pos+length) (fixed_slice_spec) of the first line of the
+   segment selected by line_index / line_pattern, absent if none is - the segment is a well-formed
+   envelope of its declaration (seg_ok: `rows` lines, or from a line matching the header to the
+   first line matching the footer), consecutive deliveries take consecutive segments and together
+   they are exactly the consumed prefix of the stream (input order, nothing skipped or delivered
+   twice); no call reads a stale reference or panics. *)
+Theorem fixed2_column_fidelity : forall re_match input ops,
+  let '(es, dls, s') := runF re_match (f2_init input) ops in
+  exists all segs k,
+    streamF input (h_in s') all /\ viewF s' = skipn k all
+    /\ Forall ok_out es
+    /\ Forall2 (fun dt seg => snd dt = node_specF re_match (fst dt) seg /\ seg_ok re_match (fst dt) seg) dls segs
+    /\ concat segs = firstn k all.
+Proof. exact fixed2_sequence_proof. Qed.
 
 Example fixed2_nonvacuous :
   let d := mkEnv2 (hx "72") (HeaderFooter (PPrefix (hx "42")) (Some (PPrefix (hx "45")))) true 0 None
